@@ -8,10 +8,22 @@
 
   * `solveBasic_sound`      `solve_basic` returned `x`  ⇒  `x.size = n` and `A x = b`
   * `solveBasic_sound_get`  the same with bounded indices `x[j]`, `b[i]`
+  * `solveBasic_unique`     … and then `x` is the only solution
+  * `solveLU_sound`         `solve_lu` returned `x`  ⇒  `x.size = n` and `A x = b`
+                            (needs `IsStrictOrderedRing K`, see the doc comment)
+  * `solvers_agree`         both returned a value ⇒ the same value
+  * `solvers_agree_partial` the weaker form with uniqueness as a hypothesis (kept because it is
+                            the statement that was asked for; implied by `solvers_agree`)
+
+  Note on the pivot search of `solve_basic`: `max_abs_in_column` starts from `max_index = 0`,
+  so on an all-zero pivot column it returns row 0 and `partial_pivot` exchanges row `k` with
+  row 0.  Soundness survives (entry (0,0) is then zero for good and the last division of
+  `backsolve` fails); see `Ohsl.Mat.gauss_spec`.
 -/
 import Ohsl.Props.C01
 import Ohsl.Lemmas.SolveSound
 import Mathlib.Algebra.BigOperators.Fin
+import Mathlib.Algebra.Order.Field.Rat
 set_option linter.unusedSectionVars false
 set_option linter.unusedVariables false
 namespace Ohsl.Props.C01
@@ -58,5 +70,92 @@ theorem solveBasic_sound_get {n : Nat} (hn : 1 ≤ n) {A : Mat K} {a : Nat → N
   have hj : j.1 < x.size := by rw [hs]; exact j.2
   simp [hj]
 
+/-- **Soundness of `solve_lu`** (in-place LU with recorded row permutation, `P b`, forward and
+    back substitution): any returned vector has length `n` and solves `A x = b` exactly.
+    `IsStrictOrderedRing K` (the order is compatible with the field operations) is needed
+    because the decomposition *skips* a column whose largest magnitude compares equal to zero;
+    without compatibility `|x| ≤ 0` would not force `x = 0`. -/
+theorem solveLU_sound [IsStrictOrderedRing K] {n : Nat} (hn : 1 ≤ n) {A : Mat K}
+    {a : Nat → Nat → K} (hA : Mat.Is A n n a) {b x : Array K} (hb : b.size = n)
+    (h : Mat.solveLU A b = .ok x) :
+    x.size = n ∧
+      ∀ i, i < n → ∑ j ∈ Finset.range n, a i j * (x[j]?.getD 0) = b[i]?.getD 0 := by
+  obtain ⟨hs, hsol⟩ := solveLU_sound_ent hn hA.wfn hb h
+  refine ⟨hs, ?_⟩
+  intro i hi
+  have := hsol i hi
+  simp only [vf] at this
+  rw [← this]
+  apply Finset.sum_congr rfl
+  intro j hj
+  rw [hA.ent_eq hi (Finset.mem_range.1 hj)]
+
+/-- The two direct solvers agree whenever both return a value and the system has at most one
+    solution.  ("partial": nothing is said when one of them fails, and uniqueness of the
+    solution is a hypothesis rather than derived from the success of the elimination.) -/
+theorem solvers_agree_partial [IsStrictOrderedRing K] {n : Nat} (hn : 1 ≤ n) {A : Mat K}
+    {a : Nat → Nat → K} (hA : Mat.Is A n n a) {b x₁ x₂ : Array K} (hb : b.size = n)
+    (huniq : ∀ z z' : Nat → K,
+      (∀ i, i < n → ∑ j ∈ Finset.range n, a i j * z j = b[i]?.getD 0) →
+      (∀ i, i < n → ∑ j ∈ Finset.range n, a i j * z' j = b[i]?.getD 0) →
+      ∀ j, j < n → z j = z' j)
+    (h₁ : Mat.solveBasic A b = .ok x₁) (h₂ : Mat.solveLU A b = .ok x₂) : x₁ = x₂ := by
+  obtain ⟨s1, e1⟩ := solveBasic_sound hn hA hb h₁
+  obtain ⟨s2, e2⟩ := solveLU_sound hn hA hb h₂
+  have := huniq (fun j => x₁[j]?.getD 0) (fun j => x₂[j]?.getD 0) e1 e2
+  apply Array.ext
+  · rw [s1, s2]
+  · intro j hj1 hj2
+    have := this j (by omega)
+    simpa [hj1, hj2] using this
+
+/-- A successful `solve_basic` certifies uniqueness: every exact solution of the system
+    coincides with the returned vector (all pivots of the reduced triangular system were
+    non-zero, otherwise a division would have failed). -/
+theorem solveBasic_unique {n : Nat} (hn : 1 ≤ n) {A : Mat K} {a : Nat → Nat → K}
+    (hA : Mat.Is A n n a) {b x : Array K} (hb : b.size = n)
+    (h : Mat.solveBasic A b = .ok x) (z : Nat → K)
+    (hz : ∀ i, i < n → ∑ j ∈ Finset.range n, a i j * z j = b[i]?.getD 0) :
+    ∀ j, j < n → z j = x[j]?.getD 0 := by
+  refine solveBasic_unique_ent hn hA.wfn hb h z ?_
+  intro i hi
+  rw [← show _ = vf b i from hz i hi]
+  apply Finset.sum_congr rfl
+  intro j hj
+  rw [hA.ent_eq hi (Finset.mem_range.1 hj)]
+
+/-- The two direct solvers agree whenever both return a value — no uniqueness hypothesis:
+    it follows from the success of `solve_basic` (`solveBasic_unique`). -/
+theorem solvers_agree [IsStrictOrderedRing K] {n : Nat} (hn : 1 ≤ n) {A : Mat K}
+    {a : Nat → Nat → K} (hA : Mat.Is A n n a) {b x₁ x₂ : Array K} (hb : b.size = n)
+    (h₁ : Mat.solveBasic A b = .ok x₁) (h₂ : Mat.solveLU A b = .ok x₂) : x₁ = x₂ := by
+  obtain ⟨s1, _⟩ := solveBasic_sound hn hA hb h₁
+  obtain ⟨s2, e2⟩ := solveLU_sound hn hA hb h₂
+  have := solveBasic_unique hn hA hb h₁ (fun j => x₂[j]?.getD 0) e2
+  apply Array.ext
+  · rw [s1, s2]
+  · intro j hj1 hj2
+    have := this j (by omega)
+    simp only [hj1, hj2, Array.getElem?_eq_getElem, Option.getD_some] at this
+    exact this.symm
+
 end Exact
+
+section Examples
+attribute [local instance] Ohsl.Alg.scalarExt
+
+/-- the hypotheses of the soundness theorems are satisfiable: a 3×3 rational system whose first
+    pivot is zero (a row exchange is needed) is solved by both solvers -/
+example : ∃ (A : Mat ℚ) (b x : Array ℚ), Mat.Is A 3 3 (Mat.ent A) ∧ b.size = 3 ∧
+    Mat.solveBasic A b = .ok x ∧ Mat.solveLU A b = .ok x :=
+  ⟨⟨#[0, 1, 2, 1, 0, 3, 4, -3, 8], 3, 3⟩, #[8, 10, 22], #[1, 2, 3],
+    Mat.WFn.is ⟨rfl, rfl, rfl⟩, rfl, by decide +kernel, by decide +kernel⟩
+
+/-- and both solvers do refuse a singular system whose second pivot column vanishes (the pivot
+    search falls back to row 0 there): no value is returned -/
+example : Mat.solveBasic (K := ℚ) ⟨#[1, 1, 0, 0, 0, 1, 0, 0, 1], 3, 3⟩ #[1, 2, 3] = .error .arith ∧
+    Mat.solveLU (K := ℚ) ⟨#[1, 1, 0, 0, 0, 1, 0, 0, 1], 3, 3⟩ #[1, 2, 3] = .error .arith :=
+  ⟨by decide +kernel, by decide +kernel⟩
+
+end Examples
 end Ohsl.Props.C01
